@@ -16,6 +16,11 @@
  *   MODE 6  cleanup_do()   C02: the cleaner is asked to remove a mess file only if it is
  *                          older than OSSIFIED and neither info nor todo exists.
  *
+ *   MODE 7  pqrun()        C15: an ALRM makes every scheduled message due at once.
+ *   MODE 8  pqfinish()     C15: on exit every scheduled message's due time is written to
+ *                          its channel file's mtime (what pqadd reads back after restart).
+ *                          (these two use the real prioq.c on pre-sized queues of NQ entries)
+ *
  * The message number is concrete (so the path names built by the real fnmake_*()/fmtqfn()
  * are concrete strings); everything else is symbolic.
  */
@@ -52,6 +57,11 @@ unsigned char in_reply;              /* qmail-clean's answer */
 int in_next;                         /* MODE 6: readsubdir_next result */
 int in_flagcleanup;
 long in_cleanuptime;
+#ifndef NQ
+#define NQ 2
+#endif
+long in_qdt_flat[2 * (NQ + 1)];      /* MODE 7/8: due times of the queued entries (ids concrete: 11, 12, .. / 21, 22, ..) */
+#define in_qdt(c, k) in_qdt_flat[(c) * (NQ + 1) + (k)]
 
 void sym_inputs(void)
 {
@@ -61,6 +71,7 @@ void sym_inputs(void)
   SYM_ARR(tape); SYM_ARR(ex); SYM_ARR(in_time); SYM(in_refs); SYM(in_hiteof); SYM(in_numtodo);
   SYM(in_retry); SYM(in_pos); SYM(in_recent); SYM(in_bounce_ok); SYM(in_reply); SYM(in_next);
   SYM(in_flagcleanup); SYM(in_cleanuptime);
+  SYM_ARR(in_qdt_flat);
 #endif
 }
 
@@ -105,6 +116,26 @@ static int n_bounce_calls, bounce_before_unlink;
 static int n_req; static int req_f; static int req_after_unlink;
 static int opened_fd = -1, open_f, n_write, write_ok_shape, seek_done, n_close, fd_open;
 
+#if MODE == 7 || MODE == 8
+static struct prioq_elt qstore[2][NQ + 2];
+static int n_utimes, ut_ok[2][NQ + 1];
+int vf_utimes(const char *path, const struct timeval tv[2])
+{
+  int c, k;
+  ++n_utimes;
+  CHECK(path == fn.s, "utimes on the name built by fnmake_chanaddr");
+  for (c = 0; c < 2; ++c) for (k = 0; k < NQ; ++k) {
+    char want[40]; unsigned int n = 0, i; const char *pre = c ? "remote/" : "local/"; unsigned long id = (unsigned long) (10 * (c + 1) + k + 1);
+    for (i = 0; pre[i]; ++i) want[n++] = pre[i];
+    n += put_num(want + n, id % (unsigned long) auto_split); want[n++] = '/'; n += put_num(want + n, id); want[n] = 0;
+    if (same(path, want)) {
+      CHECK(tv[0].tv_sec == in_qdt(c, k) && tv[1].tv_sec == in_qdt(c, k), "C15: the schedule is saved: mtime of the channel file = the entry's due time");
+      ut_ok[c][k] += 1;
+    }
+  }
+  return (draw() & 1) ? -1 : 0;
+}
+#else
 /* prioq_insert is cut: which queue, which element */
 int prioq_insert(prioq *pq, struct prioq_elt *pe)
 {
@@ -117,6 +148,8 @@ int prioq_insert(prioq *pq, struct prioq_elt *pe)
   CHECK(pe->id == ID, "C03: the re-scheduled entry is this message");
   return 1;
 }
+
+#endif
 
 int injectbounce(unsigned long id)
 {
@@ -322,6 +355,37 @@ void vmain(void)
       if (nchan == 2) WITNESS("both_channels");
       if (nchan == 0) WITNESS("done_only");
     }
+  }
+#elif MODE == 7 || MODE == 8
+  {
+    int c, k;
+    for (c = 0; c < 2; ++c) {
+      pqchan[c].p = qstore[c]; pqchan[c].len = 0; pqchan[c].a = NQ + 2;
+      for (k = 0; k < NQ; ++k) {
+        struct prioq_elt pe; pe.id = (unsigned long) (10 * (c + 1) + k + 1); pe.dt = in_qdt(c, k);
+        ASSUME(in_qdt(c, k) >= 0 && in_qdt(c, k) < (1L << 40));
+        CHECK(prioq_insert(&pqchan[c], &pe), "pre-sized queue");
+      }
+    }
+#if MODE == 7
+    pqrun();
+    for (c = 0; c < 2; ++c) {
+      CHECK(pqchan[c].len == NQ, "C15: ALRM loses no entry");
+      for (k = 0; k < NQ; ++k) {
+        CHECK(pqchan[c].p[k].dt == in_recent, "C15: after ALRM every scheduled message is due at once");
+        CHECK(pqchan[c].p[k].id / 10 == (unsigned long) (c + 1), "entries stay on their channel");
+      }
+    }
+    WITNESS("all_due");
+#else
+    pqfinish();
+    for (c = 0; c < 2; ++c) {
+      CHECK(pqchan[c].len == 0, "queues drained on exit");
+      for (k = 0; k < NQ; ++k) CHECK(ut_ok[c][k] == 1, "C15: every scheduled message's due time is written to its own channel file exactly once");
+    }
+    CHECK(n_utimes == 2 * NQ, "one utimes per queue entry");
+    WITNESS("schedule_saved");
+#endif
   }
 #elif MODE == 6
   ASSUME(in_next >= -1 && in_next <= 1);
